@@ -1023,6 +1023,10 @@ func checkC09(P *Prog, r *Result) {
 						sortedIdiom = append(sortedIdiom, ph.Comment)
 						continue
 					}
+					if countedFillThenSort(l, ph) {
+						sortedIdiom = append(sortedIdiom, ph.Comment+" (position counter)")
+						continue
+					}
 					if P.collectThenKeyUse(l, ph) {
 						r.info("%s: slice %s accumulated in visit order and consumed only as a set of map keys (delete / m[k] = m2[k])", lname, ph.Comment)
 						continue
@@ -1447,6 +1451,118 @@ func (P *Prog) checkElementLoopBound(r *Result) {
 	}
 	r.floor("C01/element-loop-bound", 1)
 	_ = n
+}
+
+// countedFillThenSort recognises the index form of collect-then-sort:
+//
+//	keys := make([]string, len(m)); i := 0
+//	for k := range m { keys[i] = k; i++ }
+//	sort.Strings(keys)
+//
+// the header phi is an integer that starts at 0, is incremented by one on every iteration, and is used in
+// the loop only as the position of a store into one slice made outside the loop; that slice is not read in the
+// loop and its first use after the loop (dominating every other) is a sort. The counter is not used after the loop.
+func countedFillThenSort(l rangeLoop, ph *ssa.Phi) bool {
+	if b, ok := ph.Type().Underlying().(*types.Basic); !ok || b.Info()&types.IsInteger == 0 {
+		return false
+	}
+	for i, e := range ph.Edges {
+		if l.body[ph.Block().Preds[i]] {
+			bo, ok := e.(*ssa.BinOp)
+			if !ok || bo.Op != token.ADD || bo.X != ssa.Value(ph) {
+				return false
+			}
+			if k, ok := constInt(bo.Y); !ok || k != 1 {
+				return false
+			}
+		} else if k, ok := constInt(e); !ok || k != 0 {
+			return false
+		}
+	}
+	var slice ssa.Value
+	for _, rf := range *ph.Referrers() {
+		switch x := rf.(type) {
+		case *ssa.DebugRef:
+		case *ssa.BinOp:
+			if !l.body[x.Block()] || x.Op != token.ADD {
+				return false
+			}
+			// the increment: flows only back into the phi
+			for _, u := range *x.Referrers() {
+				if u != ssa.Instruction(ph) {
+					if _, isDbg := u.(*ssa.DebugRef); !isDbg {
+						return false
+					}
+				}
+			}
+		case *ssa.IndexAddr:
+			if !l.body[x.Block()] || x.Index != ssa.Value(ph) {
+				return false
+			}
+			if slice != nil && slice != x.X {
+				return false
+			}
+			slice = x.X
+			for _, u := range *x.Referrers() {
+				if st, ok := u.(*ssa.Store); !ok || st.Addr != ssa.Value(x) {
+					return false
+				}
+			}
+		default:
+			return false
+		}
+	}
+	if slice == nil {
+		return false
+	}
+	if in, ok := slice.(ssa.Instruction); !ok || l.body[in.Block()] {
+		return false
+	}
+	// every other use of the slice: outside the loop, the first one a sort that dominates the rest
+	var outside []ssa.Instruction
+	for _, rf := range *slice.Referrers() {
+		if _, isDbg := rf.(*ssa.DebugRef); isDbg {
+			continue
+		}
+		if l.body[rf.Block()] {
+			if ia, ok := rf.(*ssa.IndexAddr); ok && ia.Index == ssa.Value(ph) {
+				continue
+			}
+			return false
+		}
+		outside = append(outside, rf)
+	}
+	var sortCall ssa.Instruction
+	for _, o := range outside {
+		if ci := callOf(o); ci != nil && ci.static != nil {
+			if n := ci.static.String(); strings.HasPrefix(n, "sort.") || strings.HasPrefix(n, "slices.Sort") {
+				sortCall = o
+			}
+		}
+	}
+	if sortCall == nil {
+		return false
+	}
+	for _, o := range outside {
+		if o == sortCall {
+			continue
+		}
+		// the length the slice was made with, read before the loop, is fine
+		if c, ok := o.(*ssa.Call); ok && callOf(c).builtin == "len" {
+			continue
+		}
+		sb, ob := sortCall.Block(), o.Block()
+		if sb == ob {
+			if instrIndex(sortCall) > instrIndex(o) {
+				return false
+			}
+			continue
+		}
+		if !sb.Dominates(ob) {
+			return false
+		}
+	}
+	return true
 }
 
 // collectThenKeyUse recognises the other order-insensitive accumulation: keys
